@@ -117,6 +117,15 @@ class World(object):
                 self.kept = ReadHoldingRegistersRequest(rec['addr'], 1, unit=unit)
                 rec['kept'] = True
                 d = self.p.execute(self.kept)
+            elif len(ev) > 1 and ev[1] == 'unencodable':
+                # a request the application got wrong (register value 70000): the call raises, nothing is sent, and the
+                # requests around it are not disturbed
+                rec['unencodable'] = True         # no reply will ever be due for it
+                try:
+                    d = self.p.write_register(rec['addr'], 70000, unit=unit)
+                except Exception as e:   # noqa
+                    rec['events'].append(('raised', type(e).__name__))
+                    return
             elif len(ev) > 1 and ev[1] == 'again':
                 rec['addr'] = self.kept.address
                 rec['unit'] = self.kept.unit_id
@@ -208,6 +217,8 @@ def menu(w, max_out, max_req):
         ev.append(('req',))
         if w.connected and not any(r.get('retry') for r in w.reqs):
             ev.append(('req', 'retry'))
+        if w.connected and not any(r.get('unencodable') for r in w.reqs):
+            ev.append(('req', 'unencodable'))
         if w.connected and w.allow_cancel and not any(r.get('cancelled') for r in w.reqs):
             for i in out:
                 if not w.reqs[i]['events']:
@@ -267,6 +278,10 @@ def check(acc, w, hist, cfgname, units_class):
         bad('id-reuse', 'outstanding requests share a transaction id: %r' % (tids,))
     for i, r in enumerate(w.reqs):
         oks = [e for e in r['events'] if e[0] == 'ok']
+        if r.get('unencodable'):
+            if len(r['events']) != 1 or r['events'][0][0] != 'raised':
+                bad('double-fire', 'the request that could not be encoded shows %r' % (r['events'],))
+            continue
         if r.get('cancelled'):
             if r['events'][:1] != [('err', 'CancelledError')] or len(r['events']) > 1:
                 bad('double-fire', 'the cancelled request %d shows %r' % (i, r['events']))
